@@ -21,7 +21,9 @@ FINISH = dict(
          "field by field with Model.Limiter at the same instants. (ii) real time: limiters with periods "
          "1..3 s (quick) / 1..10 s (thorough) under burst / steady / mixed arrival patterns; the judge "
          "Spec.C09.holds (bracket ret[i+n] - call[i] >= period) and the progress bound are evaluated on "
-         "the observed instants. distinct = distinct canonical cases; non-trivial = log non-empty or "
+         "the observed instants. (iii) real issuances (two identifiers, retries, polls, nonce fetches) through "
+         "an endpoint with a rate limit: the arrival times of ALL requests at the mock CA obey the same "
+         "bracket with 40 % latency slack (a call site that skips the limiter shows gaps of milliseconds). distinct = distinct canonical cases; non-trivial = log non-empty or "
          "more than n calls.",
 )
 
@@ -195,6 +197,75 @@ def realtime_part(ctx):
     ctx.traces += len(runs)
 
 
+def flow_part(ctx):
+    """Every HTTP request of a real issuance (GET directory, newNonce fetches, POSTs, retries, polls)
+    passes the limiter: arrival times at the mock CA obey the window bound (with latency slack)."""
+    import os
+    import shutil
+    import concurrent.futures as cf
+    import flow
+    import mockca
+    vlib.build_helper()
+    helper = mockca.Helper()
+    root = os.path.join(vlib.BUILD, "scratch", "c09-%d" % os.getpid())
+    shutil.rmtree(root, ignore_errors=True)
+    scs = [{"idx": 0, "n": 3, "period_s": 2, "nonce_on_get": False, "retry": True},
+           {"idx": 1, "n": 2, "period_s": 1, "nonce_on_get": True, "retry": False}]
+    if not ctx.quick():
+        scs += [{"idx": 2 + i, "n": ctx.rng.randint(1, 5), "period_s": ctx.rng.randint(1, 4),
+                 "nonce_on_get": bool(i % 2), "retry": bool(i % 3)} for i in range(10)]
+
+    def run(sc):
+        d = os.path.join(root, "f%d" % sc["idx"])
+        rules = []
+        if sc["retry"]:
+            rules.append({"kind": "newOrder", "times": 3, "answer": {"status": 503, "ctype": "application/problem+json",
+                          "body": {"type": mockca.ERR + "serverInternal"}, "nonce": "none"}})
+        cert = {"name": "crt", "identifiers": [{"dns": "a.example.org", "challenge": "http-01"},
+                                                {"dns": "b.example.org", "challenge": "dns-01"}], "key_type": "ecdsa_p256"}
+        ca = mockca.MockCA(helper, rules=rules, opts={"nonce_on_get": sc["nonce_on_get"], "polls_before_valid": 2})
+        ca.start()
+        os.makedirs(d, exist_ok=True)
+        import cfggen
+        cfg, log = flow.make_config(d, ca.base + "/directory", [cert],
+                                    rate_limits=[{"name": "rl", "number": sc["n"], "period": "%ds" % sc["period_s"]}])
+        cfg["endpoint"][0]["rate_limits"] = ["rl"]
+        cfg_path = cfggen.write(os.path.join(d, "acmed.toml"), cfg)
+        dmn = flow.Daemon(cfg_path)
+        flow.wait_for(lambda: len(flow.post_ops(log)) >= 1 or not dmn.alive(), 120)
+        dmn.stop()
+        ca.stop()
+        reqs = [e for e in ca.log if e["kind"] == "req"]
+        return {"sc": sc, "arrivals": [e["t"] for e in reqs], "kinds": [e["rk"] for e in reqs],
+                "done": bool(flow.post_ops(log))}
+    try:
+        with cf.ThreadPoolExecutor(max_workers=6) as ex:
+            results = list(ex.map(run, scs))
+    finally:
+        helper.close()
+        shutil.rmtree(root, ignore_errors=True)
+    for r in results:
+        sc = r["sc"]
+        p = sc["period_s"] * NS
+        slack = int(0.4 * p)
+        # (arrival as call, arrival + slack as return): the bracket demands arrival[i+n] + slack >= arrival[i] + p
+        ev = [[str(t), str(t + slack)] for t in r["arrivals"]]
+        v = vlib.model([{"op": "judge_c09", "limits_ns": [[sc["n"], str(p)]], "events": ev, "bound_ns": str(10 ** 15)}])[0]
+        ctx.case({"flow": sc}, nontrivial=len(r["arrivals"]) > sc["n"])
+        ctx.count("flow:requests", len(r["arrivals"]))
+        for k in set(r["kinds"]):
+            ctx.count("flow:kind:" + k, r["kinds"].count(k))
+        if not r["done"]:
+            ctx.broke("harness", "the rate-limited issuance did not finish within 120 s", {"sc": sc, "n": len(r["arrivals"])})
+        if not v["holds"]:
+            gaps = [(r["arrivals"][i + sc["n"]] - r["arrivals"][i]) / 1e9 for i in range(len(r["arrivals"]) - sc["n"])]
+            i = min(range(len(gaps)), key=lambda k: gaps[k])
+            ctx.violation("limit %d per %d s: requests %d..%d (%s) reached the server within %.3f s" % (
+                sc["n"], sc["period_s"], i, i + sc["n"], r["kinds"][i:i + sc["n"] + 1], gaps[i]),
+                {"flow": sc, "arrivals_ns": r["arrivals"], "kinds": r["kinds"]})
+    ctx.traces += len(results)
+
+
 def replay(ctx):
     with open(ctx.replay) as f:
         r = json.load(f)
@@ -224,6 +295,7 @@ def run(ctx):
     vlib.build_acmed()
     deterministic_part(ctx)
     realtime_part(ctx)
+    flow_part(ctx)
     ctx.assumptions = ["clock readings never go backwards (CLOCK_MONOTONIC)",
                        "windows are half-open (t - p, t], as the implementation's strict comparison makes them"]
     return ctx.finish(**FINISH)
